@@ -2,15 +2,13 @@
 NOTE_COMMON = ('Trusted: Lean kernel; axioms propext/Classical.choice/Quot.sound only; translator T; harness X and its generators; '
                'L0 models are hand-written and tied to the code by differential runs (bounded by generator quality), not verified.')
 
-CLAIMS_LATER = {
+CLAIMS = {
     'C05': {
         'text': 'Lean theorems over the L0 model of receivePayloadQueue (all op lists, all 2^32 cumulative points, every bitmap size the code can build) '
                 'plus differential correspondence of that model with the Go struct and the ghost-history predicate S1-S4 evaluated on the implementation outputs.',
         'note': NOTE_COMMON,
         'technique': 'Lean 4 proof (invariant + induction over op lists) + model/implementation differential replay',
     },
-}
-CLAIMS = {
     'C16': {
         'text': 'Serial-number algebra proved in Lean on definitions regenerated from util.go on every run (both widths, all values); '
                 'translator validated against the Go functions on boundary and random inputs; component shift-invariance by theorem on the L0 models.',
@@ -36,7 +34,31 @@ CLAIMS = {
     },
 }
 
-_PENDING = 'check not built yet in this round (planned, see DESIGN.md §5/§8); not claimed until its theorems and correspondence run'
-NOT_APPLICABLE = {p: _PENDING for p in ['C05', 'C01', 'C02', 'C03', 'C04', 'C06', 'C07', 'C08', 'C09', 'C10', 'C11', 'C12', 'C13', 'C14', 'C15', 'C17', 'C18', 'C20']}
+E2E_NOTE = ('Evidence level is EXPLORATION until the system-level theorems (DESIGN §5, NetSys) are closed: real association pairs under testing/synctest virtual time '
+            'behind a fault-injecting conn; every random choice from VERIF_SEED; the history/wire predicates are Lean definitions (Spec/History, Spec/E2ESpec, '
+            'Spec/SenderSpec) evaluated by the compiled driver on the implementation logs. Goroutine interleavings are sampled, not enumerated.')
 
-NOTES = 'Family of technique: machine-checked proof in Lean 4. See DESIGN.md. Known findings: known_findings.jsonl.'
+
+def _e2e(text):
+    return {'category': 'exploration', 'text': text, 'note': E2E_NOTE, 'engine': 'synctest-e2e+lean-predicates',
+            'technique': 'seeded fault-schedule exploration of real association pairs in virtual time; Lean-defined executable predicates on API+wire histories (theorems pending)'}
+
+
+CLAIMS.update({
+    'C01': _e2e('Per stream, the read history of ordered reliable streams must be a prefix of (and after healing equal to) the accepted-write history, over seeded workloads x fault schedules x modes x initial TSNs (incl. next to 2^32).'),
+    'C02': _e2e('After the fault prefix ends every reliable message is read and both sides report zero buffered/pending/in-flight bytes within heal + 600 s of virtual time (blackouts > 60 s, zero-window readers, 40 % loss, reordering).'),
+    'C04': _e2e('Handshake scenarios: 16 option combinations x 3 role assignments (client/server, both clients, out-of-band tokens) x up to 3 faults on the first 8 packets x start order; negotiated metadata against the truth table; stale handshake packets replayed after establishment; silent peer (bounded failure, 1+maxInitRetrans INITs); waiting server returns on transport close.'),
+    'C06': _e2e('Unordered / partially reliable streams: reads must match distinct written messages (subsequence for ordered), DCEP always delivered in order.'),
+    'C07': _e2e('Partial-reliability scenarios: a message that was not delivered must be one the sender told the peer to skip (stream entry or cumulative point of a FORWARD-TSN / I-FORWARD-TSN); everything else is delivered.'),
+    'C08': _e2e('Graceful shutdown with data still queued, one-sided and crossed, under faults: Shutdown()==nil implies all earlier writes read in order before EOF; both sides closed; late writes/OpenStream rejected and never delivered.'),
+    'C09': _e2e('Close / Abort / transport read failure / write failure injected right after the k-th wire event of runs that go through handshake, transfer, stream reset and shutdown, with callers parked in Connect, Accept, Read, Write, Shutdown: everything returns, no goroutine of the package survives, no write to a closed conn, Close idempotent, ABORT cause reaches the peer.'),
+    'C10': _e2e('Direct-drive of one real Association (single-threaded): after EVERY write/gather/SACK/T3 the admission rule (cwnd, rwnd, lone probe), the advertised-window bound, MTU/fragment sizes and the loss response formulas are checked on the implementation outputs.'),
+    'C14': _e2e('Stream close by the writer then by the reader, re-open of the same identifier for up to 3 incarnations, several streams at once, under loss/duplication/reordering of DATA and RECONFIG: all messages then EOF per incarnation.'),
+    'C15': _e2e('Direct-drive: per-stream buffered amount = accepted writes - newly acknowledged bytes after every op (gap-ack then cumulative ack, T3, invalid/stale SACKs), association figure = pending + in-flight, callback count = downward crossings, callback can take both locks.'),
+    'C18': _e2e('API-contract programs: oversize / empty / closed-stream writes, blocking writes with deadlines, short read buffers (message stays available), read deadlines expiring with no data; rejected calls are invisible in the peer read history; blocking-write gate checked white-box.'),
+})
+
+_PENDING = 'check not built yet in this round (planned, see DESIGN.md §5/§8); not claimed until its theorems and correspondence run'
+NOT_APPLICABLE = {p: _PENDING for p in ['C03', 'C11', 'C12', 'C13', 'C17', 'C20']}
+
+NOTES = 'Family of technique: machine-checked proof in Lean 4. See DESIGN.md. Known findings: known_findings.txt.'
